@@ -91,6 +91,14 @@ struct PoliciesHeterFilter { using Mixins = eventpp::MixinList<eventpp::MixinHet
 
 template <typename Base> struct MixinNoop : public Base {};
 struct PoliciesTwoMixins { using Mixins = eventpp::MixinList<MixinNoop, eventpp::MixinFilter>; };
+// a mixin with a hook of its own (the documented signature), listed before / after the filter mixin: both hooks have their turn
+template <typename Base> struct MixinGate : public Base {
+	template <typename ...Args> bool mixinBeforeDispatch(Args && ...) const { return true; }
+};
+struct PoliciesGateFilter { using Mixins = eventpp::MixinList<MixinGate, eventpp::MixinFilter>; };
+struct PoliciesFilterGate { using Mixins = eventpp::MixinList<eventpp::MixinFilter, MixinGate>; };
+struct PoliciesFilterNoop { using Mixins = eventpp::MixinList<eventpp::MixinFilter, MixinNoop>; };
+struct PoliciesHeterTwoMixins { using Mixins = eventpp::MixinList<MixinNoop, eventpp::MixinHeterFilter>; };
 
 // a removal condition that can be called with the trigger's arguments AND with none:
 // the library must call it with the arguments (the property says "with the trigger's arguments if it accepts them")
